@@ -37,17 +37,17 @@ CHECKS = {
  "C06": dict(cat="exploration", tech="deterministic simulation baseline: op-by-op comparison of every read interface with the reference model (no fault, no event)",
    text="Baseline configuration of the simulator: random multi-transaction write histories, full dump (nodes, out/in neighbours with multiplicity, typed neighbours, single-key and whole-map property reads, labels, external ids) compared with the model after every commit. It is the unrelaxed oracle that all fault-injecting configurations relax.", ref="§3 C06"),
  "C07": dict(cat="exploration", tech="deterministic simulation: cancellation fault (transaction abandoned at an arbitrary operation), model comparison incl. reopen",
-   text="Transactions abandoned (dropped) after a PRNG-chosen prefix containing every write kind; dump, index lookups and vector search must equal the model without the abandoned transaction immediately, after further commits and after reopen.", ref="§3 C07"),
+   text="Transactions abandoned (dropped) after a PRNG-chosen prefix containing every write kind, and transactions whose commit is arranged to fail (one value above the log-record limit); dump, index lookups and vector search must equal the model without the abandoned transaction immediately, after further commits and after reopen.", ref="§3 C07"),
  "C08": dict(cat="fault_enumeration", tech="deterministic simulation with fault injection: injected I/O errors (EIO / partial write / ENOSPC / failed fsync) at every I/O step of each commit, compaction, index creation and close",
    text="Every I/O step inside every target operation of a generated history is failed once per error kind in a fresh deterministic re-execution; the failed operation must be invisible in the process, later transactions must be accepted, visible and durable, after reopen the failed transaction is wholly present or wholly absent, open succeeds and a further commit survives another reopen.", ref="§3 C08"),
  "C09": dict(cat="exploration", tech="deterministic simulation: seeded cooperative scheduler over real threads calling the C API auto-commit entry point",
    text="2-4 client threads issue read-modify-write increments, conditional creates (MERGE) and copy statements on shared nodes through ndb_execute_write under seeded schedules; final counters must equal the number of acknowledged increments and each merged key must exist exactly once.", ref="§3 C09"),
- "C10": dict(cat="exploration", tech="deterministic simulation: two engine handles sharing only the simulated directory, seeded interleaving of their open/commit/compact/close actions",
-   text="PRNG-chosen interleavings of two handles on one path; a second open while the first handle is open must be refused (or wait); the replay of a violation closes both, reopens and reports lost acknowledged commits.", ref="§3 C10"),
+ "C10": dict(cat="exploration", tech="deterministic simulation: two engine handles sharing only the simulated directory (same process, a second OS process, or two simulated threads under the seeded scheduler), seeded interleaving of their open/commit/compact/close actions",
+   text="PRNG-chosen interleavings of two handles on one path, at action granularity (second handle in the same or in a child process) and at I/O-step granularity (owner commits on one simulated thread while another repeatedly tries to open; afterwards every acknowledged commit must be intact); a second open while the first handle is open must be refused (or wait); the replay of a violation closes both, reopens and reports lost acknowledged commits.", ref="§3 C10"),
  "C13": dict(cat="exploration", tech="deterministic simulation: statement-level fault (evaluation fails at an arbitrary row of a multi-row statement) in auto-commit mode and inside explicit C API transactions, model comparison after every operation",
    text="Generated C API sessions from a template grammar with a model function per template; multi-row statements fail at a PRNG-chosen row (type error, refused delete); statements that returned an error must have no effect immediately, after commit of the surrounding transaction and after reopen. Attribution by the twin history without the failed statements.", ref="§3 C13"),
  "C14": dict(cat="exploration", tech="deterministic simulation: invariant monitor in every configuration + statement-level create/delete histories through the C API",
-   text="(1) every dump in every configuration checks that each relationship returned in either direction connects two existing nodes and that the outgoing and incoming views agree; (2) C API sessions with create-then-(DETACH )DELETE in one statement sequence, one transaction and after commit: a delete of a connected node must fail, traversals from both endpoints must agree.", ref="§3 C14"),
+   text="(1) every dump in every configuration checks that each relationship returned in either direction connects two existing nodes and that the outgoing and incoming views agree; (2) C API sessions with create-then-(DETACH )DELETE in one statement sequence, one transaction and after commit, some with a compaction in between (relationships sitting in a compacted segment when an endpoint is deleted): a delete of a connected node must fail, traversals from both endpoints must agree.", ref="§3 C14"),
  "C15": dict(cat="exploration", tech="deterministic simulation: twin-database histories (with / without create_index events) on the simulated substrate, equality lookups after every lifecycle event",
    text="One generated history runs on two databases, one with the index events; after every commit, abandoned transaction, compaction and reopen, `MATCH (n:L) WHERE n.p = v` and `MATCH (n:L {p: v})` for every indexed pair and every value of an adversarial universe must return identical ids on both.", ref="§3 C15"),
  "C17": dict(cat="fault_enumeration", tech="deterministic simulation with fault injection: stored-byte faults on the log tail (every truncation offset, zero/random/length-field/oversize tails, unfinished transaction, bit flips) followed by write + reopen rounds",
@@ -55,20 +55,20 @@ CHECKS = {
  "C18": dict(cat="exploration", tech="deterministic simulation: page-ownership monitor on the disk seam (which structure allocates / claims / writes each page) over fault-free growth histories at scale, plus reopen dump",
    text="Histories that create hundreds to thousands of nodes in batches interleaved with compaction, index creation, property, relationship and vector writes; every page event is attributed to a structure and a claim or write of a page owned by another structure is a violation at that instant; dump == model after reopen.", ref="§3 C18"),
  "C24": dict(cat="exploration", tech="deterministic simulation: explicit-transaction histories through the C API, transaction-local reference model, attribution by splitting transactions into auto-commit statements",
-   text="Sessions with 80% multi-statement explicit transactions whose later statements read, update, merge or delete what earlier ones wrote; the model applies each statement to the transaction-local state and the dump after commit must equal it.", ref="§3 C24"),
+   text="Sessions with 80% multi-statement explicit transactions whose later statements read, update, merge or delete what earlier ones wrote (while finding F23 is open: statements on disjoint nodes, plus repeated blind property writes on one node); the model applies each statement to the transaction-local state and the dump after commit must equal it.", ref="§3 C24"),
  "C28": dict(cat="exploration", tech="deterministic simulation: model-based lifecycle histories (vacuum events) on the simulated disk",
    text="vacuum(path) on a closed database as a lifecycle event inside L1 histories, followed by open, dump, more writes, reopen, dump; vacuum must succeed and all dumps equal the model.", ref="§3 C28"),
 
  "C29": dict(cat="exploration", tech="deterministic simulation: seeded cooperative scheduler (backup thread vs writer thread, backup file operations are scheduling points) + restore and model comparison",
-   text="nervusdb::backup runs concurrently with a generated writer history (and, separately, quiescently); the restored copy must open and equal one model state between the operations acknowledged before the backup began and those begun before it returned.", ref="§3 C29"),
+   text="nervusdb::backup runs concurrently with a generated writer history that may end in the close-time log rewrite, on a database that a pre-thread prefix may already have compacted (and, separately, quiescently); the restored copy must open and equal one model state between the operations acknowledged before the backup began and those begun before it returned.", ref="§3 C29"),
  "C31": dict(cat="exploration", tech="deterministic simulation: HNSW level randomness from the simulator's PRNG stream (one seed = one index shape), reopen events, brute-force oracle",
    text="Vector-heavy L1 histories (ties, duplicates, re-insertion, deletions, a bulk configuration with hundreds of vectors so that the persistent trees split) with close/drop + reopen; results are checked for soundness (count, distinctness, existing nodes with vectors, exact bit-equal distances, order), for exactness when the index holds at most 2m+1 vectors (m=2), and for equality before and after reopen.", ref="§3 C31"),
  "C32": dict(cat="exploration", tech="deterministic simulation: simulated wall clock (stalled / coarse / backwards-stepping regimes) behind the node-id allocation sites, create-heavy C API sessions",
-   text="Create-heavy sessions (CREATE, UNWIND..CREATE of up to 20 nodes, MERGE creates, deletes, compaction, reopen) under per-run clock regimes; no create may fail, identities must be pairwise distinct, never reused and stable across compaction and reopen.", ref="§3 C32"),
+   text="Create-heavy sessions (CREATE, UNWIND..CREATE of up to 20 nodes, MERGE creates, deletes, compaction, reopen, explicit transactions mixing creating statements with statements that fail and are rolled back to their savepoint) under per-run clock regimes; no create may fail, identities must be pairwise distinct, never reused and stable across compaction and reopen.", ref="§3 C32"),
  "C33": dict(cat="exploration", tech="deterministic simulation: simulated monotonic clock whose deadline crossing is swept over every clock read of the query, plus PRNG-chosen row/collection limits; comparison with the unlimited result",
    text="14 query shapes with large intermediates on generated graphs run unlimited, under random limit sets and under a soft timeout that expires at the i-th clock read for every i; each outcome must be the complete result or a resource-limit error, and the query must stop within 64 further clock reads once the deadline is observable (a watchdog on the simulated clock catches queries that never stop).", ref="§3 C33"),
- "C35": dict(cat="exploration", tech="deterministic simulation: seeded cooperative scheduler with exact all-threads-blocked detection, lock-order graph as evidence",
-   text="2-5 threads with PRNG mixes of transactions, compaction, index creation, snapshot reads, index lookups, statistics reads, vector insertion/search and new-label creation; a violation is the exact deadlock condition (every unfinished thread parked on a lock) or no completion within the step cap; the observed lock-order graph with gate locks is reported in the evidence.", ref="§3 C35"),
+ "C35": dict(cat="exploration", tech="deterministic simulation: seeded cooperative scheduler with exact all-threads-blocked detection and a writer-preferring RwLock model, lock-order graph as evidence",
+   text="2-5 threads with PRNG mixes of transactions, compaction, index creation, snapshot reads, index lookups, statistics reads, vector insertion/search (inside transactions and through the direct entry point), indexed property writes, close-time checkpoint and new-label creation; a violation is the exact deadlock condition (every unfinished thread parked on a lock) or no completion within the step cap; the observed lock-order graph with gate locks is reported in the evidence.", ref="§3 C35"),
 }
 
 def head(repo):
